@@ -367,5 +367,34 @@ def run(rc):
 
 
 def replay(data):
-    from ..replay import replay_grammar_case
-    return replay_grammar_case(data)
+    """Re-executes a recorded queue schedule (choice list) or codec string."""
+    d = data['detail']
+    sig = data.get('signature', '')
+    scratch = tempfile.mkdtemp(prefix='verif-c19r-', dir='/dev/shm' if os.path.isdir('/dev/shm') else None)
+    try:
+        if 'choices' in d and 'sends' in d:
+            obs, bad = queue_run(Chooser(tuple(d['choices'])), scratch, d['sends'], d['readers'], 3)
+        elif 'choices' in d:
+            obs, bad = overlap_run(Chooser(tuple(d['choices'])), scratch)
+        elif 'string' in d:
+            from ..runner import Merge
+            m = Merge()
+            codec_shard(m, [d['string']])
+            for v in m.violations:
+                print(v['signature'], str(v['detail'])[:300])
+            hit = any(v['signature'] == sig for v in m.violations)
+            if hit:
+                print('VIOLATION property=C19 replay=reproduced')
+            return 1 if hit else 0
+        else:
+            print('replay: nothing executable in this record')
+            return 1
+        for e in obs:
+            print('  ', e)
+        for b in bad:
+            print('BAD', b)
+        if bad:
+            print('VIOLATION property=C19 replay=reproduced')
+        return 1 if bad else 0
+    finally:
+        shutil.rmtree(scratch, ignore_errors=True)
